@@ -15,7 +15,8 @@ For every query the driver
   path (`Flat.look` vs `nodeAt`, the latter answered from a hash index built with gen.go's
   insertion procedure; every 16th query the index is cross-checked against the `List` definitions
   `nodeAt` / `hasExc` / `hasNormal` / `hasWild` the theorems are about),
-* answers with the PSL spec over the dumped rules (`specLen`) and the flag of the model walk.
+* answers with the PSL spec over the dumped rules (`specLen`) and the flag of the model walk
+  (every 16th query compared with `specFlag` over the rule list).
 Any disagreement is printed as `reject …` (the harness expects `ok …`).
 -/
 open NetVerif.Driver NetVerif.Model.PublicSuffix
@@ -120,7 +121,11 @@ def query (s : St) (isIP : Bool) (domain : String) : St × List Nat × List Stri
   let ks := specLen (hashIndex s) d
   let err := match err with
     | some e => some e
-    | none => if kf != ks && !isIP then some s!"model-walk-differs-from-spec walk={kf} spec={ks}" else none
+    | none =>
+      if kf != ks && !isIP then some s!"model-walk-differs-from-spec walk={kf} spec={ks}"
+      else if s.queries % 16 == 0 && flag != specFlag s.rules d then
+        some s!"model-walk-flag-differs-from-spec walk={flag}"
+      else none
   (s', d, labels, err, ks, flag)
 
 def step (s : St) (line : String) : St × String :=
